@@ -934,7 +934,7 @@ func TestC30(t *testing.T) {
 			"fresh-mask-key-per-frame (RFC 6455 5.3) is not part of the property statement; key reuse (prepared client frames) is only counted",
 			"the read bound of 5 minutes per connection only guards against hangs; reaching it yields INCONCLUSIVE, never a verdict",
 		},
-		Cases:       map[string]int{"quick": 320, "thorough": 4800},
+		Cases:       map[string]int{"quick": 240, "thorough": 2400},
 		CaseTimeout: 15 * time.Minute,
 		RequireCounters: []string{
 			"data_messages_roundtripped", "compressed_frames_on_wire", "fragmented_messages_on_wire", "frames_len16", "frames_len64", "api:msg", "api:writer", "api:prepared", "api:control", "api:nextwriter-control",
